@@ -47,6 +47,9 @@ func loadFindings() (map[string]finding, error) {
 			if strings.HasPrefix(w, "case=") {
 				f.hash = strings.TrimPrefix(w, "case=")
 			}
+			if strings.HasPrefix(w, "sig=") {
+				f.hash = "sig:" + strings.TrimPrefix(w, "sig=")
+			}
 		}
 		if f.prop != "" && f.hash != "" {
 			res[f.prop+"/"+f.hash] = f
@@ -319,21 +322,23 @@ func RunCheck(chk *Check, tier string, seed int64) int {
 	finished := 0
 	restarts := 0
 	violations := 0
-	knownHit := map[string]bool{}
+	knownHit := map[string]int{}
 	var replays []string
 	unconfirmed := 0
 	aborted := false
 	maxOutcomes := int64(0)
 
 	gens := map[int]int{}
-	report := func(c Case, class, msg string, confirmations int) {
+	report := func(c Case, class, msg string, confirmations int, sig string) {
 		h := c.Hash()
-		if f, ok := known[chk.ID+"/"+h]; ok {
-			if !knownHit[h] {
-				knownHit[h] = true
-				fmt.Printf("KNOWN-FINDING: property=%s %s\n", chk.ID, strings.TrimSpace(strings.Replace(f.rest, "property="+chk.ID, "", 1)))
+		for _, k := range []string{h, "sig:" + sig} {
+			if f, ok := known[chk.ID+"/"+k]; ok && k != "sig:" {
+				knownHit[k]++
+				if knownHit[k] == 1 {
+					fmt.Printf("KNOWN-FINDING: property=%s %s\n", chk.ID, strings.TrimSpace(strings.Replace(f.rest, "property="+chk.ID, "", 1)))
+				}
+				return
 			}
-			return
 		}
 		violations++
 		dir := filepath.Join(Root, "replays", chk.ID)
@@ -355,7 +360,7 @@ func RunCheck(chk *Check, tier string, seed int64) int {
 		ev := <-ch
 		switch {
 		case ev.viol != nil:
-			report(ev.viol.Case, ev.viol.Res.Why, ev.viol.Res.Msg, 1)
+			report(ev.viol.Case, ev.viol.Res.Why, ev.viol.Res.Msg, 1, ev.viol.Res.Sig)
 		case ev.sum != nil:
 			s := ev.sum
 			if s.Recycle {
@@ -425,7 +430,7 @@ func RunCheck(chk *Check, tier string, seed int64) int {
 				}
 			}
 			if conf >= 2 {
-				report(c, class, info+"\n(confirmed in fresh worker: "+r2.Why+")", conf)
+				report(c, class, info+"\n(confirmed in fresh worker: "+r2.Why+")", conf, "")
 			} else {
 				unconfirmed++
 				fmt.Printf("note: worker %d died (%s) on case %s but the case passed when replayed alone (%s); not reported\n", ev.shard, class, c.Key(), note)
@@ -498,8 +503,8 @@ func RunCheck(chk *Check, tier string, seed int64) int {
 		samples = append(samples, "none")
 	}
 	var kh []string
-	for h := range knownHit {
-		kh = append(kh, h)
+	for h, n := range knownHit {
+		kh = append(kh, fmt.Sprintf("%s x%d", h, n))
 	}
 	sort.Strings(kh)
 	cov := map[string]any{
